@@ -187,8 +187,14 @@ func runC09(c *Ctx) {
 	c.Floor("R4.maintenance", nDel, 1, "cache deletions")
 	if ra := m.Methods["RemoveAll"]; ra != nil {
 		ok := false
+		callees := map[*ssa.Function]bool{ra: true}
+		for _, call := range callsIn(ra) {
+			if cal := call.Common().StaticCallee(); cal != nil && recvNamed(cal) == m.Server && w.Expr(call.Common().Args[0]) == "p0" {
+				callees[cal] = true
+			}
+		}
 		for _, a := range w.FieldAccesses(m.Server, m.fCache) {
-			if a.Fn == ra && a.Kind == "write" {
+			if callees[a.Fn] && a.Kind == "write" {
 				if _, isMM := a.Instr.(*ssa.Store).Val.(*ssa.MakeMap); isMM {
 					ok = true
 				}
